@@ -1,10 +1,11 @@
 (* C11 — Rooted and depth-limited iteration is exact, finite and fused.
    Only pinned statements, [exact] proofs and [Print Assumptions].
    Proved: rooted and depth-limited exactness, the state NodeIter::root produces for a root given
-   in any key representation, fusedness.  The capacity-error clause is decided by the
-   correspondence and the Stage C predicate only (see DESIGN.md: partial). *)
+   in any key representation, fusedness, and the capacity-error clause: for ANY target the iteration is the total-target iteration of
+   the pruned shape (Iter_cap.v).  ExactSize::len is decided by the correspondence and the Stage C
+   predicate only (see DESIGN.md: partial, with the recorded finding exactsize-capacity). *)
 From Coq Require Import List NArith ZArith.
-From MC Require Import Str Packed Tree Tree_proofs NoPanic Transcode_proofs Odometer Iter_proofs Meta_proofs.
+From MC Require Import Str Packed Tree Tree_proofs NoPanic Transcode_proofs Odometer Iter_proofs Meta_proofs Iter_cap.
 Import ListNotations.
 
 (* iteration rooted at the node with index path p (a leaf or an internal node), depth limit
@@ -59,8 +60,74 @@ Example C11_ex :
   end = [Some [47; 98; 47; 120]; Some [47; 98; 47; 121]; Some [47; 98; 47; 122]; None]%N.
 Proof. reflexivity. Qed.
 
+(* ---- any target, including those that run out of capacity ------------------------------------
+   [pshape cbf t pre]: the shape of t in which every child whose callback invocation fails (for a
+   transcoding target: whose key cannot be written after the keys [pre]) is a leaf. *)
+Theorem C11_pshape_unfold : forall cbf t pre, pshape cbf t pre =
+  match t with
+  | NLeaf _ => Leaf
+  | NGate _ t' => pshape cbf t' pre
+  | NFlat _ _ t' => pshape cbf t' pre
+  | NHet h lk cs => Het (het_children cbf lk pre cs 0)
+  | NHom n t' =>
+      Het (map (fun j => let c := (N.of_nat j, @None str, n) in
+                         if cbf pre c then Leaf else pshape cbf t' (c :: pre)) (seq 0 (N.to_nat n)))
+  end.
+Proof. intros cbf t pre. destruct t; reflexivity. Qed.
+Theorem C11_het_children_nth : forall cbf lk pre cs j k a t', nth_error cs k = Some (a, t') ->
+  nth_error (het_children cbf lk pre cs j) k =
+  Some (let c := (N.of_nat (j + k), lk_name lk (N.of_nat (j + k)), lk_len lk) in
+        if cbf pre c then Leaf else pshape cbf t' (c :: pre)).
+Proof. exact het_children_nth. Qed.
+(* the item next() returns for a node: an error item with its depth if the key cannot be written,
+   the rendered key otherwise *)
+Theorem C11_item_cap_unfold : forall t tg idx' d lf, item_cap t tg idx' d lf =
+  match fst (transcode t tg (idx_keys idx')) with
+  | TErr (TooShort _) => ItErr d
+  | _ => ItOk (snd (transcode t tg (idx_keys idx'))) d lf
+  end.
+Proof. reflexivity. Qed.
+(* iteration (rooted at any writable node p, any depth limit) into ANY target yields the depth-first
+   enumeration with cut-off of the pruned subtree: every node whose key can be written, in order,
+   each once; exactly one error item, carrying the failing depth, for every child whose key cannot
+   be written, and nothing below it; then the end.  No hypothesis on the target. *)
+Theorem C11_iter_rooted_cap : forall (t : node) (tg : target), NoPanic.wf t -> small t ->
+  forall D' p c, descend (pshape (tg_fail tg) t []) p = Some c ->
+  iter_collect (S (S (length (enum D' c)))) t tg
+      {| i_idx := p ++ zeros D'; i_root := length p; i_depth := length p + D' + 1 |} =
+  map (expect_cap t tg D' p c) (enum D' c) ++ [IDone].
+Proof. exact iter_rooted_cap. Qed.
+Theorem C11_iter_complete_cap : forall (t : node) (tg : target), NoPanic.wf t -> small t -> forall D,
+  iter_collect (S (S (length (enum D (pshape (tg_fail tg) t []))))) t tg (iter_default D) =
+  map (expect_cap t tg D [] (pshape (tg_fail tg) t [])) (enum D (pshape (tg_fail tg) t [])) ++ [IDone].
+Proof. exact iter_complete_cap. Qed.
+Theorem C11_expect_cap_unfold : forall t tg D' p c q, expect_cap t tg D' p c q =
+  IItem (item_cap t tg (p ++ pad D' q) (length p + length q) (nodeleaf c q)).
+Proof. reflexivity. Qed.
+(* it terminates and stays ended *)
+Theorem C11_iter_end_cap : forall (t : node) (tg : target), NoPanic.wf t -> small t ->
+  forall D' p c q, descend (pshape (tg_fail tg) t []) p = Some c -> maximal D' c q -> succ D' c q = None ->
+  let st' := snd (iter_next t tg {| i_idx := p ++ pad D' q; i_root := length p; i_depth := length p + length q |}) in
+  fst (iter_next t tg {| i_idx := p ++ pad D' q; i_root := length p; i_depth := length p + length q |}) = IDone /\
+  iter_next t tg st' = (IDone, st').
+Proof. exact iter_end_cap. Qed.
+(* non-vacuity: { a, long_name: { x, y }, b } into a 4-byte Path *)
+Theorem C11_cap_example :
+  pshape (tg_fail (TgPath 47 4)) Iter_cap.ex_t [] = Het [Leaf; Leaf; Leaf] /\
+  iter_collect 6 Iter_cap.ex_t (TgPath 47 4) (iter_default 2) =
+    [IItem (ItOk (RdText [47; 97]%N) 1 true); IItem (ItErr 1); IItem (ItOk (RdText [47; 98]%N) 1 true); IDone].
+Proof. exact ex_cap. Qed.
+
 Print Assumptions C11_iter_rooted.
 Print Assumptions C11_root_state.
 Print Assumptions C11_fused.
 Print Assumptions C11_end_is_fused.
 Print Assumptions C11_next_is_successor.
+Print Assumptions C11_pshape_unfold.
+Print Assumptions C11_het_children_nth.
+Print Assumptions C11_item_cap_unfold.
+Print Assumptions C11_iter_rooted_cap.
+Print Assumptions C11_iter_complete_cap.
+Print Assumptions C11_expect_cap_unfold.
+Print Assumptions C11_iter_end_cap.
+Print Assumptions C11_cap_example.
